@@ -1,7 +1,7 @@
 """C09 bounded run-time contract (labelled bounded): a schema means the same however its declarations are arranged.
 
-One namespace with 14 mutually forward-referencing globals (types, a substitution group, a model group, an attribute group, list and union
-types, a notation) (with a keyref that refers to a key declared on another element) and 5 probe instances.  Arrangements: seeded permutations; 2-3 way splits into include files in a sub-directory;
+One namespace with 15 mutually forward-referencing globals (types, a substitution group, a model group, an attribute group, list and union
+types, a notation) (with a keyref that refers to a key declared on another element) and 6 probe instances.  Arrangements: seeded permutations; 2-3 way splits into include files in a sub-directory;
 location spellings (relative, dotted, absolute, file URL, the same file included twice under two spellings); clear-and-rebuild; copy of
 the global maps followed by build(); pickle round trip.  Each arrangement must give the same global components and, for every probe, the
 same errors and the same decoded data as the reference arrangement.  Import order of two other namespaces is permuted as well.
@@ -25,13 +25,21 @@ DECLS = [
     '<xs:attributeGroup name="AG"><xs:attribute name="a" type="t:Code"/><xs:attribute ref="t:ga"/></xs:attributeGroup>',
     '<xs:attribute name="ga" type="t:Codes"/>',
     '<xs:notation name="n" public="p"/>',
+    '<xs:attributeGroup name="DAG"><xs:attribute name="uid" type="xs:int"/></xs:attributeGroup>',      # XSD 1.1: the default attribute group of every document of the schema
 ]
 HEAD = f'<xs:schema {XS} targetNamespace="urn:t" xmlns:t="urn:t" elementFormDefault="qualified">'
+HEADS = {'1.0': HEAD, '1.1': HEAD[:-1] + ' defaultAttributes="t:DAG">'}
+
+
+def decls_for(ver):
+    # the derived type inherits the default attributes of its base: it must not add them again (the builder rejects the duplicate)
+    return [d.replace('<xs:complexType name="DerT">', '<xs:complexType name="DerT" defaultAttributesApply="false">') if ver == '1.1' else d for d in DECLS]
 PROBES = [
     '<t:root xmlns:t="urn:t" a="5" t:ga="1 2"><t:head><t:v>7</t:v></t:head><t:member><t:v>1</t:v><t:w>1 2 50</t:w></t:member><t:x>true</t:x></t:root>',
     '<t:root xmlns:t="urn:t" a="51"><t:head><t:v>-1</t:v></t:head></t:root>',
     '<t:root xmlns:t="urn:t"><t:member><t:v>1</t:v><t:w>51</t:w></t:member><t:y>2020-02-30</t:y></t:root>',
     '<t:root xmlns:t="urn:t"><t:head><t:v>1</t:v><t:w>1</t:w></t:head><t:x>maybe</t:x></t:root>',
+    '<t:root xmlns:t="urn:t" uid="1"><t:head uid="7"><t:v>7</t:v></t:head><t:member uid="x"><t:v>1</t:v></t:member></t:root>',      # attributes of the default attribute group (XSD 1.1)
     '<t:root xmlns:t="urn:t"><t:head><t:v>7</t:v></t:head><t:x>7</t:x></t:root>',        # a keyref on the root that refers to a key declared on another element
 ]
 KINDS = ['permute', 'split', 'spell', 'twice', 'copy', 'pickle', 'imports', 'same-text']
@@ -47,8 +55,8 @@ def summary(s):
 
 def eval_arrangement(args):
     ver, kind, seed, root = args
-    rng = random.Random(seed); cls = _cls(ver)
-    decls = DECLS[:]; rng.shuffle(decls)
+    rng = random.Random(seed); cls = _cls(ver); HEAD = HEADS[ver]
+    decls = decls_for(ver); rng.shuffle(decls)
     try:
         if kind == 'permute': s = cls(HEAD + ''.join(decls) + '</xs:schema>')
         elif kind in ('split', 'spell'):
@@ -95,14 +103,14 @@ def run(tier, seed, open_findings):
     try:
         n = 12 if tier == 'thorough' else 3
         jobs = [(ver, kind, seed * 100 + i, root) for ver in ('1.0', '1.1') for kind in KINDS for i in range(n)]
-        refs = {ver: summary(_cls(ver)(HEAD + ''.join(DECLS) + '</xs:schema>')) for ver in ('1.0', '1.1')}
+        refs = {ver: summary(_cls(ver)(HEADS[ver] + ''.join(decls_for(ver)) + '</xs:schema>')) for ver in ('1.0', '1.1')}
         res = pmap(eval_arrangement, jobs, chunk=1)
         fails = []
         for (ver, kind, sd, _), got in zip(jobs, res):
             if got != refs[ver]:
                 diff = got if got and got[0] == 'EXC' else ('globals differ' if got[0] != refs[ver][0] else 'probe results differ')
                 fails.append(dict(case=dict(ver=ver, kind=kind, seed=sd), observed=diff, required='same global components, errors and data as the reference arrangement'))
-        return [result('C09.arrangements', f'{len(jobs)} arrangements ({", ".join(KINDS)}) x 5 probe instances, both classes', len(jobs) * len(PROBES), fails,
+        return [result('C09.arrangements', f'{len(jobs)} arrangements ({", ".join(KINDS)}) x 6 probe instances, both classes', len(jobs) * len(PROBES), fails,
                        samples=[dict(kind='spell', note='the same file included twice under two spellings')], distinct=len(jobs))]
     finally:
         shutil.rmtree(root, ignore_errors=True)
@@ -112,7 +120,7 @@ def replay(check_name, case):
     root = tempfile.mkdtemp(prefix='verif_c09_')
     try:
         got = eval_arrangement((case['ver'], case['kind'], case['seed'], root))
-        ref = summary(_cls(case['ver'])(HEAD + ''.join(DECLS) + '</xs:schema>'))
+        ref = summary(_cls(case['ver'])(HEADS[case['ver']] + ''.join(decls_for(case['ver'])) + '</xs:schema>'))
         return dict(ok=got == ref, observed=got if got and got[0] == 'EXC' else 'summary compared', required='same as the reference arrangement')
     finally:
         shutil.rmtree(root, ignore_errors=True)
